@@ -5,7 +5,9 @@
    Smiles.__eq__/__hash__ over an opaque canonical string.  About the writer model (Model.Writer, `_smiles`) only the first
    steps towards `smiles_invariant_discrete` are theorems (sections "writer" ... below: with injective weights the start atom
    and the order of the children of every DFS node are decided by the weights alone and are mapped by a renumbering; the
-   BFS labels, the DFS and one whole component of `traverse` are equivariant under remap()-like renumberings); the
+   BFS labels, the DFS, flattening, closure numbers, emission and finally `smiles_text` are equivariant under remap()-like
+   renumberings - conditionally on the agreement of the atom / bond token functions, unconditionally when no stereo mark is
+   written: C01_smiles_invariant_discrete_nostereo / _unlabelled / C01_canonical_nostereo_string_invariant); the
    full statement is the Prop Proofs.WriterInvProofs.smiles_invariant_discrete_goal and is NOT proved.  The stereo
    refinement (`_chiral_morgan`) is not covered by theorems: search in harness/checks/C01.py. *)
 From Coq Require Import ZArith List Bool Permutation Sorting.Sorted String.
@@ -315,3 +317,63 @@ Theorem C01_emit_example :
     Ok ([OAtom 9 "C"; OBond 9 8 ""; OAtom 8 "C"; OBond 8 7 ""; OAtom 7 "O"], [9; 8; 7], []).
 Proof. exact emit_example. Qed.
 Print Assumptions C01_emit_example.
+
+(* ---- composed: component, components, text ---- *)
+(* DESIGN appendix A `smiles_invariant_discrete`, for renumberings that keep the insertion orders (remap()), CONDITIONAL on
+   the agreement of the atom / bond token functions of the two sides (hypotheses 5 and 6: `_format_atom` incl. stereo marks,
+   `_format_bond` incl. the cis/trans map); everything else of `_smiles` (start atoms, BFS, DFS, flattening, closure numbers,
+   neighbour lists, emission, the loop over components, the CXSMILES suffix) is carried through the renumbering *)
+Theorem C01_smiles_invariant_discrete_partial_text :
+  forall (g : mol) (s w w' tb tb' : Z -> Z) (o : opts) (tabs tabs' : stabs),
+  wf_mol g = true -> (forall x y, s x = s y -> x = y) -> inj_on (ids g) w -> (forall n, In n (ids g) -> w' (s n) = w n) ->
+  (forall visited n, format_atom (ren_mol s g) o tabs' (s n) (ren_vis s visited) = format_atom g o tabs n visited) ->
+  (forall visited n m, format_bond (ren_mol s g) o (ct_map (ren_mol s g) tabs' (ren_vis s visited)) (s n) (s m) =
+                       format_bond g o (ct_map g tabs visited) n m) ->
+  smiles_text (ren_mol s g) w' tb' o tabs' = map_order s (smiles_text g w tb o tabs).
+Proof. exact smiles_text_ren. Qed.
+Print Assumptions C01_smiles_invariant_discrete_partial_text.
+
+(* unconditional when no stereo mark and no atom-map number is written: format(mol, '!s') of ANY molecule (also one with stereo
+   labels), any tie-break priorities, any stereo registries: same text, written order mapped by s *)
+Theorem C01_smiles_invariant_discrete_nostereo :
+  forall (g : mol) (s w w' tb tb' : Z -> Z) (o : opts) (tabs tabs' : stabs),
+  wf_mol g = true -> (forall x y, s x = s y -> x = y) -> inj_on (ids g) w -> (forall n, In n (ids g) -> w' (s n) = w n) ->
+  o_stereo o = false -> o_mapping o = false ->
+  smiles_text (ren_mol s g) w' tb' o tabs' = map_order s (smiles_text g w tb o tabs).
+Proof. exact smiles_invariant_discrete_nostereo. Qed.
+Print Assumptions C01_smiles_invariant_discrete_nostereo.
+
+(* and for molecules without stereo labels with every option set that writes no atom-map numbers: str(mol) itself *)
+Theorem C01_smiles_invariant_discrete_unlabelled :
+  forall (g : mol) (s w w' tb tb' : Z -> Z) (o : opts) (tabs tabs' : stabs),
+  wf_mol g = true -> (forall x y, s x = s y -> x = y) -> inj_on (ids g) w -> (forall n, In n (ids g) -> w' (s n) = w n) ->
+  no_stereo_labels g -> o_mapping o = false ->
+  smiles_text (ren_mol s g) w' tb' o tabs' = map_order s (smiles_text g w tb o tabs).
+Proof. exact smiles_invariant_discrete_unlabelled. Qed.
+Print Assumptions C01_smiles_invariant_discrete_unlabelled.
+
+(* end to end with the Morgan model: discrete classes of atoms_order make the stereo-free canonical string invariant under
+   remap(), for every hash function *)
+Theorem C01_canonical_nostereo_string_invariant :
+  forall (h : list Z -> Z) (ring ring' : Z -> bool) (g : mol) (s tb tb' : Z -> Z) (o : opts) (tabs tabs' : stabs) (l : labels),
+  wf_mol g = true -> (forall x y, s x = s y -> x = y) -> (forall n, In n (ids g) -> ring' (s n) = ring n) ->
+  atoms_order h ring g = Ok l -> NoDup (map snd l) -> o_stereo o = false -> o_mapping o = false ->
+  exists l', atoms_order h ring' (ren_mol s g) = Ok l' /\
+             smiles_text (ren_mol s g) (lbl l') tb' o tabs' = map_order s (smiles_text g (lbl l) tb o tabs).
+Proof. exact canonical_nostereo_string_invariant. Qed.
+Print Assumptions C01_canonical_nostereo_string_invariant.
+
+(* non-vacuity: ethanol renumbered n -> 10 - n, weights = ranks of the Morgan model (CPython hash), '!s' and default options *)
+Theorem C01_nostereo_example :
+  o_stereo exw_o = false /\ o_mapping exw_o = false /\
+  smiles_text ex_g (lbl exw_l) (fun n => n) exw_o no_stabs = Ok ("CCO"%string, [1; 2; 3]) /\
+  smiles_text (ren_mol ex_s ex_g) (lbl (ren_labels ex_s exw_l)) (fun n => - n) exw_o no_stabs = Ok ("CCO"%string, [9; 8; 7]).
+Proof. exact nostereo_example. Qed.
+Print Assumptions C01_nostereo_example.
+
+Theorem C01_unlabelled_example :
+  no_stereo_labels ex_g /\ o_mapping default_opts = false /\
+  smiles_text ex_g (lbl exw_l) (fun n => n) default_opts no_stabs = Ok ("CCO"%string, [1; 2; 3]) /\
+  smiles_text (ren_mol ex_s ex_g) (lbl (ren_labels ex_s exw_l)) (fun n => - n) default_opts no_stabs = Ok ("CCO"%string, [9; 8; 7]).
+Proof. exact unlabelled_example. Qed.
+Print Assumptions C01_unlabelled_example.
